@@ -20,5 +20,6 @@ open BsVerif.Dqe
 #print axioms C07_set_match_counterexample
 #print axioms C07_precedence
 #print axioms C07_print_parse_partial
+#print axioms C07_precedence_example
 #print axioms C07_parse_slice
 #print axioms C07_precedence_deref_field
